@@ -155,7 +155,8 @@ def _check_dns(hostname):
         debug3('<    %s' % ip)
         check_host(ip)
         found_host(hostname, ip)
-    except (socket.gaierror, UnicodeError):
+    except (socket.gaierror, UnicodeError, TypeError):
+        # TypeError: a name with an embedded NUL (e.g. from /etc/hosts)
         pass
 
 
